@@ -41,7 +41,10 @@ def c06_mir(proto, body):
     offs, _ = G.layout(proto)
     L = ['m: module', 'hp: proto i64, i64:a, i64:b',
          'pp: proto i64, i64:a, i64:b, i64:c, i64:d, i64:e, i64:f, i64:g, d:i',
-         'import outs, vals, helper, probe', 'export f', func_header(proto)]
+         'import outs, vals, helper, probe', 'export f']
+    if body['kind'] == 'inl':
+        L += ['gp: proto i64, i64:x', 'forward ig, ih']
+    L.append(func_header(proto))
     loc = ['i64:o', 'i64:v', 'i64:t', 'i64:dst', 'i64:va', 'i64:s', 'i64:h', 'i64:ap', 'i64:am', 'i64:an', 'i64:ap2', 'd:dz']
     B = ['mov o, outs', 'mov v, vals']
     kind = body['kind']
@@ -79,6 +82,23 @@ def c06_mir(proto, body):
         B.append('and am, ap2, 15')
         B.append('mov i64:%d(o), am' % (XO + 16))
         B.append('mov i64:32(ap2), 1311768467463790320')
+        # a constant size that reaches the alloca through a register (folded in by later passes)
+        loc.append('i64:cs')
+        loc.append('i64:ap4')
+        B.append('mov cs, %d' % body.get('alloca_k', 24))
+        B.append('alloca ap4, cs')
+        B.append('and am, ap4, 15')
+        B.append('mov i64:%d(o), am' % (XO + 48))
+        B.append('mov u8:0(ap4), 90')
+        # adjacent constant allocas (merged into one by simplification): every block's address is reported
+        for k, sz in enumerate(body.get('msizes', [])):
+            loc.append('i64:m%d' % k)
+        for k, sz in enumerate(body.get('msizes', [])):
+            B.append('alloca m%d, %d' % (k, sz))
+        for k, sz in enumerate(body.get('msizes', [])):
+            B.append('mov i64:%d(o), m%d' % (XO + 56 + 8 * k, k))
+            B.append('mov u8:0(m%d), %d' % (k, 17 + k))
+            B.append('mov u8:%d(m%d), %d' % (sz - 1, k, 33 + k))
     # store every named parameter
     for i, (t, off) in enumerate(zip(proto['args'][:nf], offs)):
         if t.startswith('rblk'):
@@ -141,8 +161,25 @@ def c06_mir(proto, body):
             B.append('dadd dz, dz, q%d' % k)
         B.append('dmov d:%d(o), dz' % XO)
         B.append('mov i64:%d(o), h' % (XO + 24))
+    if kind == 'inl':
+        # callee allocas merged into the caller's top alloca by inlining (f before ig before ih: nested)
+        loc.append('i64:ia')
+        B.append('alloca ia, 16')
+        B.append('mov i64:0(ia), 5')
+        B.append('inline gp, ig, s, 7')
+        B.append('mov i64:%d(o), s' % (XO + 112))
+        B.append('mov i64:%d(o), i64:0(ia)' % (XO + 120))
     if kind == 'alloca':
         B.append('call hp, helper, h, 5, 7')
+        B.append('dmov dz, d:%d(v)' % (PO + 8))
+        B.append('call pp, probe, s, an, an, an, an, an, an, an, dz')
+        for k, sz in enumerate(body.get('msizes', [])):
+            loc.append('i64:mc%d' % k)
+            B.append('mov mc%d, u8:0(m%d)' % (k, k))
+            B.append('lsh mc%d, mc%d, 8' % (k, k))
+            B.append('mov t, u8:%d(m%d)' % (sz - 1, k))
+            B.append('or mc%d, mc%d, t' % (k, k))
+            B.append('mov i64:%d(o), mc%d' % (XO + 128 + 8 * k, k))
         B.append('mov i64:%d(o), i64:0(ap)' % (XO + 24))
         B.append('mov i64:%d(o), i64:32(ap2)' % (XO + 32))
         B.append('mov i64:%d(o), h' % XO)
@@ -158,13 +195,19 @@ def c06_mir(proto, body):
     L.append('local ' + ', '.join(loc))
     L += B
     L.append('ret ' + ', '.join(rops) if rops else 'ret')
-    L += ['endfunc', 'endmodule']
+    L.append('endfunc')
+    if kind == 'inl':
+        L += ['ig: func i64, i64:x', 'local i64:b, i64:r', 'alloca b, 1', 'mov u8:0(b), 1', 'inline gp, ih, r, x',
+              'mov x, u8:0(b)', 'sub x, x, 1', 'or r, r, x', 'ret r', 'endfunc',
+              'ih: func i64, i64:x', 'local i64:c, i64:r', 'alloca c, 8', 'mov i64:0(c), x', 'and r, c, 7', 'ret r', 'endfunc']
+    L.append('endmodule')
     return '\n'.join(L) + '\n'
 
 
 def gen_body(rng):
-    kind = rng.choice(['plain', 'plain', 'pressure', 'pressure', 'alloca', 'fppress', 'call', 'leafpress', 'leafpress'])
-    return dict(kind=kind, nlive=rng.randint(6, 14), bstart=rng.random() < 0.5, va_alloca=rng.random() < 0.5, alloca_n=rng.choice([1, 8, 15, 16, 17, 100, 333]),
+    kind = rng.choice(['plain', 'plain', 'pressure', 'pressure', 'alloca', 'alloca', 'fppress', 'call', 'leafpress', 'leafpress', 'inl'])
+    return dict(kind=kind, nlive=rng.randint(6, 14), alloca_k=rng.choice([8, 24, 40, 100, 1, 17, 333, 32]),
+                msizes=[rng.choice([1, 2, 3, 4, 5, 8, 12, 16, 17, 24]) for _ in range(rng.choice([0, 2, 3, 5, 6]))], bstart=rng.random() < 0.5, va_alloca=rng.random() < 0.5, alloca_n=rng.choice([1, 8, 15, 16, 17, 100, 333]),
                 press=[rng.getrandbits(64) for _ in range(NPRESS)],
                 fpress=[float(rng.randint(-1000, 1000)) for _ in range(NPRESS)],
                 mxcsr=rng.choice([0x1f80, 0x1f80, 0x3f80, 0x5f80, 0x7f80, 0x9fc0]),
@@ -196,6 +239,7 @@ def vals_buffer(proto, body, resvals):
             buf[PO + 8 * k:PO + 8 * k + 8] = struct.pack('<d', x)
     elif body['kind'] == 'alloca':
         buf[PO:PO + 8] = body['alloca_n'].to_bytes(8, 'little')
+        buf[PO + 8:PO + 16] = struct.pack('<d', 2.5)
     return bytes(buf)
 
 
@@ -372,7 +416,28 @@ def compare_c06(proto, body, m, impl, vals, resvals, rblk_ptrs, engine='gen'):
             bad.append('alloca memory lost its contents across a call')
         if int.from_bytes(outs[XO:XO + 8], 'little') != 22:
             bad.append('helper result wrong after alloca')
-    if kind == 'call' and impl.get('pimg'):
+        a4 = int.from_bytes(outs[XO + 48:XO + 56], 'little')
+        if a4 != 0:
+            bad.append('alloca of the constant size %d held in a register: memory not 16-byte aligned (addr mod 16 = %d)' % (body.get('alloca_k', 24), a4))
+        ms = body.get('msizes', [])
+        addrs = [int.from_bytes(outs[XO + 56 + 8 * k:XO + 64 + 8 * k], 'little') for k in range(len(ms))]
+        for k, (a, sz) in enumerate(zip(addrs, ms)):
+            na = sz if sz <= 2 else 4 if sz <= 4 else 8 if sz <= 8 else 16
+            if a % na:
+                bad.append('adjacent constant allocas %s: block %d (%d bytes) at address = %d mod %d' % (ms, k, sz, a % na, na))
+            for j in range(k):
+                if a < addrs[j] + ms[j] and addrs[j] < a + sz:
+                    bad.append('adjacent constant allocas %s: blocks %d and %d overlap' % (ms, j, k))
+            got = int.from_bytes(outs[XO + 128 + 8 * k:XO + 136 + 8 * k], 'little')
+            want = ((17 + k) << 8 | (33 + k)) if sz > 1 else ((33 + k) << 8 | (33 + k))
+            if got != want:
+                bad.append('adjacent constant allocas %s: block %d lost its contents across a call (%x, expected %x)' % (ms, k, got, want))
+    if kind == 'inl':
+        if int.from_bytes(outs[XO + 112:XO + 120], 'little') != 0:
+            bad.append('alloca of an inlined callee (8 bytes, after a 16-byte and a 1-byte block): address mod 8 = %d' % int.from_bytes(outs[XO + 112:XO + 120], 'little'))
+        if int.from_bytes(outs[XO + 120:XO + 128], 'little') != 5:
+            bad.append('caller alloca lost its contents across the inlined callees')
+    if kind in ('call', 'alloca') and impl.get('pimg'):
         f = G.img_fields(impl['pimg'] + bytes(1024))
         if f['count'] != 1 or f['rsp'] % 16 != 8:
             bad.append('nested call from the MIR function: probe entered %d times, rsp mod 16 = %d' % (f['count'], f['rsp'] % 16))
